@@ -191,10 +191,15 @@ pub fn run(ctx: &Ctx) -> (Outcome, String, Option<bool>) {
         p.max_txs = 12;
     }
     let out = super::hist::run_histories(ctx, "histories", p, ctx.scale(1200, 12000), C01::default);
-    let rule = "Generated histories (2-14 steps quick / 2-40 thorough) on Custom02/Custom08/Testnet/Mainnet: batches of valid-by-construction transactions of every kind (normal, faucet, swap, deposit, withdraw, stake, new token) with dependent transactions inside a batch, shuffled orders, ~15% adversarial mutations, pool keys in canonical and 6 alternative spellings, proposer actions, restarts. Oracle: invariant on the real state read through the cfg(melstf_verif) view: per denomination, coins + pool reserves (+ fee pool + tips for MEL) after a batch <= before + faucet outputs/fee + the transaction's own new token + ERG of mints; after a seal <= before + growth of the pool's recorded liquidity (for liquidity tokens) + the TIP-909 subsidy + the unthrottled peg distance computed by RefSTF. Non-trivial = history with >=1 accepted non-faucet transaction and >=1 seal; distinct by the sequence of coin roots.".to_string();
+    let mut out = out;
+    out.absorb(crate::runner::run_sharded(ctx, "extreme-deposits", ctx.scale(600, 10000), super::c16::arb_extreme, |c, st, shard| super::c16::check_extreme(c, st, shard)));
+    let rule = "Second phase: C16's hand-built scenarios at the edge of the u128 liquidity counter (two fresh tokens, 2-6 deposits of 2^0..2^120 per side, withdrawals), checked for issuance: liquidity tokens handed out in a block <= rise of the pool's counter; coins + reserve of either token <= what was created. First phase: generated histories (2-14 steps quick / 2-40 thorough) on Custom02/Custom08/Testnet/Mainnet: batches of valid-by-construction transactions of every kind (normal, faucet, swap, deposit, withdraw, stake, new token) with dependent transactions inside a batch, shuffled orders, ~15% adversarial mutations, pool keys in canonical and 6 alternative spellings, proposer actions, restarts. Oracle: invariant on the real state read through the cfg(melstf_verif) view: per denomination, coins + pool reserves (+ fee pool + tips for MEL) after a batch <= before + faucet outputs/fee + the transaction's own new token + ERG of mints; after a seal <= before + growth of the pool's recorded liquidity (for liquidity tokens) + the TIP-909 subsidy + the unthrottled peg distance computed by RefSTF. Non-trivial = history with >=1 accepted non-faucet transaction and >=1 seal; distinct by the sequence of coin roots.".to_string();
     (out, rule, None)
 }
 
 pub fn replay(case: &serde_json::Value) -> Check {
+    if case.get("deposits").is_some() {
+        return super::c16::replay(case);
+    }
     super::hist::replay_history(case, &profile(), C01::default())
 }
